@@ -39,10 +39,9 @@ QsPrefs == {NoPref, P(1,0,0,0,0), P(2,0,0,0,0), P(4,0,0,0,0),
             P(2,2,50,1,131072), P(4,1,1,2,32768), P(2,0,50,1,0)}
 ThreadPrefs == {NoPref, P(1,0,0,0,0), P(2,0,0,0,0), P(4,0,0,0,0)}
 
-MaxQs == IF Thorough THEN 150 ELSE 100
-MaxAuto == IF Thorough THEN 180 ELSE 128
+MaxQs == IF Thorough THEN 120 ELSE 100
 
-AutoBits == {24, 40, 50, 52, 56, 64, 65, 72, 80, 81, 90, 100, 110, 128} \cup (IF Thorough THEN {140, 160, 180} ELSE {})
+AutoBits == {24, 40, 50, 52, 56, 64, 65, 72, 80, 81, 90, 100, 110, 128} \cup (IF Thorough THEN {140, 160} ELSE {})
 W64Bits == {16, 20, 24, 32, 40, 48, 52, 56, 58, 59, 60, 61, 62, 63, 64}
 Pm1Bits == {24, 48, 64, 80, 100, 128}
 Ecm128Bits == {24, 40, 56, 64, 72, 80}
